@@ -942,3 +942,77 @@ B("c12-benign-geq", "C12", "m3/reporter.go",
   "		if flush || bytes+smet.size > r.freeBytes {", "		if flush || bytes+smet.size >= r.freeBytes {")
 B("c12-benign-no-reset", "C12", "m3/reporter.go",
   "			mets = r.flush(mets)\n			bytes = 0\n", "			mets = r.flush(mets)\n")
+
+# ---------------------------------------------------------------- C15 UDP transport
+M("c15-write-no-open-guard", "C15", "m3/thriftudp/transport.go",
+  """func (p *TUDPTransport) WriteByte(b byte) error {
+	if !p.IsOpen() {
+		return thrift.NewTTransportException(thrift.NOT_OPEN, "Connection not open")
+	}
+""", """func (p *TUDPTransport) WriteByte(b byte) error {
+""", expect="O1 open-guard")
+M("c15-bound-wrong-n", "C15", "m3/thriftudp/transport.go",
+  "	if p.writeBuf.Len()+len(s) > MaxLength {", "	if p.writeBuf.Len()+1 > MaxLength {", expect="O2 bound-check")
+M("c15-bound-off-by-one", "C15", "m3/thriftudp/transport.go",
+  "	if p.writeBuf.Len()+len(buf) > MaxLength {", "	if p.writeBuf.Len()+len(buf) > MaxLength+1 {", expect="O2 bound-check")
+M("c15-bound-after-append", "C15", "m3/thriftudp/transport.go",
+  """	if p.writeBuf.Len()+1 > MaxLength {
+		return thrift.NewTTransportException(thrift.INVALID_DATA, "Data does not fit within one UDP packet")
+	}
+
+	err := p.writeBuf.WriteByte(b)
+	return thrift.NewTTransportExceptionFromError(err)""", """	err := p.writeBuf.WriteByte(b)
+	if p.writeBuf.Len() > MaxLength {
+		return thrift.NewTTransportException(thrift.INVALID_DATA, "Data does not fit within one UDP packet")
+	}
+	return thrift.NewTTransportExceptionFromError(err)""", expect="O2 bound-check")
+M("c15-flush-no-reset-on-error", "C15", "m3/thriftudp/transport.go",
+  """	_, err := p.conn.Write(p.writeBuf.Bytes())
+	p.writeBuf.Reset() // always reset the buffer, even in case of an error
+	return err""", """	_, err := p.conn.Write(p.writeBuf.Bytes())
+	if err != nil {
+		return err
+	}
+	p.writeBuf.Reset()
+	return nil""", expect="O3 flush")
+M("c15-flush-twice", "C15", "m3/thriftudp/transport.go",
+  """	_, err := p.conn.Write(p.writeBuf.Bytes())
+	p.writeBuf.Reset()""", """	_, err := p.conn.Write(p.writeBuf.Bytes())
+	if err != nil {
+		_, err = p.conn.Write(p.writeBuf.Bytes())
+	}
+	p.writeBuf.Reset()""", expect="O3 flush")
+M("c15-multi-flush-first-only", "C15", "m3/thriftudp/multitransport.go",
+  """	for _, trans := range p.transports {
+		if err := trans.Flush(); err != nil {
+			return err
+		}
+	}
+	return nil""", """	for _, trans := range p.transports {
+		if err := trans.Flush(); err != nil {
+			return err
+		}
+		break
+	}
+	return nil""", expect="O5 fan-out")
+M("c15-multi-write-skips", "C15", "m3/thriftudp/multitransport.go",
+  "	for _, trans := range p.transports {\n		written, err := trans.Write(buff)", "	for _, trans := range p.transports[1:] {\n		written, err := trans.Write(buff)", expect="O5 fan-out")
+M("c15-close-always", "C15", "m3/thriftudp/transport.go",
+  """	if closed := p.closed.Swap(true); !closed {
+		return p.conn.Close()
+	}
+	return nil""", """	p.closed.Store(true)
+	return p.conn.Close()""", expect="O6 close-once")
+M("c15-reporter-panics-on-error", "C15", "m3/reporter.go",
+  """	if err != nil {
+		r.numWriteErrors.Inc()
+	}
+""", """	if err != nil {
+		panic(err)
+	}
+""", expect="O7 reporter-survives")
+B("c15-benign-reset-on-refusal", "C15", "m3/thriftudp/transport.go",
+  """	if p.writeBuf.Len()+1 > MaxLength {
+		return thrift.NewTTransportException""", """	if p.writeBuf.Len()+1 > MaxLength {
+		p.writeBuf.Reset()
+		return thrift.NewTTransportException""")
